@@ -11,11 +11,11 @@ type Prop struct {
 }
 
 var All = []Prop{
-	{"C01", []string{"KEYS", "FLUSH", "PAIR"},
-		"point-store key tables agree (every key SetPoint writes is deleted by DeletePoint, every key read is written); the id allocator and the point count are persisted on every success exit of the insert and delete transactions; allocated ids flow into the stored point, freed ids belong to the deleted point",
+	{"C01", []string{"KEYS", "FLUSH", "PAIR", "DOCFLOW", "ITEMFLAGS"},
+		"the document and node id handed to the point store are the very values reported to the indexes, the previous document reported is the one loaded from the store, an update stores exactly the marshalled merge; point-store key tables agree (every key SetPoint writes is deleted by DeletePoint, every key read is written); the id allocator and the point count are persisted on every success exit of the insert and delete transactions; allocated ids flow into the stored point, freed ids belong to the deleted point",
 		"equality of stored documents, ids and counts with a reference model after arbitrary histories; merge semantics of update; reported id lists", 8},
-	{"C02", []string{"FOLD", "ENUM", "OPTABLE", "SORTABLE"},
-		"every key operand that reaches the inverted index is case-folded iff its siblings are; every operator accepted by validation has a handler; each range operator scans exactly (start,end,inclusive) its name means; the order-preserving key codec maps every sign class to the right half of the key space monotonically and is inverted by the decoder",
+	{"C02", []string{"FOLD", "ENUM", "OPTABLE", "SORTABLE", "SCAN", "DOCFLOW"},
+		"every bucket implementation compares iterated keys with range bounds by the comparison its inclusiveness needs; the indexes are told the stored previous and new documents of every change; every key operand that reaches the inverted index is case-folded iff its siblings are; every operator accepted by validation has a handler; each range operator scans exactly (start,end,inclusive) its name means; the order-preserving key codec maps every sign class to the right half of the key space monotonically and is inverted by the decoder",
 		"set equality of results with a model; postings after arbitrary update histories; _and/_or algebra", 30},
 	{"C04", []string{"KEYS", "ENUM"},
 		"every item a vector store writes is enumerable (IdFromKey), readable (ReadFrom) and fully removable (DeleteFrom) from a cold cache; every distance metric validation accepts is routed to a registered function",
@@ -23,26 +23,26 @@ var All = []Prop{
 	{"C07", []string{"TXSTATE", "SCRAP", "ERRS", "JOIN", "LOCKPAIR", "FLUSH"},
 		"a failed storage transaction always reaches Commit(true) and a successful one Commit(false); the cache manager scraps and unregisters every cache touched by a failed transaction; no error of a storage-layer call is dropped on the write path and the callback's error reaches bbolt's rollback; every pipeline stage's error channel is consumed and every write callback waits for the merged channel",
 		"crash atomicity of bbolt itself; equality of answers before and after a failed batch; (known finding) the fan-in helpers can complete before their inputs", 150},
-	{"C08", []string{"FLUSH", "DIRTY", "KEYS", "GUARD"},
-		"every flushing method flushes all caches of its receiver and persists every parameter the constructor reads; every write driver's success exits are the flush result; every mutation of a persisted field of a flagged Storable sets its dirty flag; Storable key tables agree",
+	{"C08", []string{"FLUSH", "DIRTY", "KEYS", "GUARD", "ITEMFLAGS", "SCAN"},
+		"the item cache's dirty/deleted flag protocol (Put makes live and dirty, readers skip deleted, Flush obeys the flags); both storage backends implement the same scan semantics; every flushing method flushes all caches of its receiver and persists every parameter the constructor reads; every write driver's success exits are the flush result; every mutation of a persisted field of a flagged Storable sets its dirty flag; Storable key tables agree",
 		"equality of answers across cache states and storage backends; durability of bbolt", 50},
-	{"C09", []string{"ROEFFECT", "GUARD", "LOCKORDER", "LOCKPAIR", "JOIN", "SCRAP"},
-		"no store into shared cached state is reachable from a read-only cache callback without a mutex of the stored-to object held; every access to the guarded maps and pointers holds the guarding lock; the lock-class order graph has no cycle outside the reasoned exceptions; every lock acquired is released on every exit",
+	{"C09", []string{"ROEFFECT", "GUARD", "LOCKORDER", "LOCKPAIR", "JOIN", "SCRAP", "ATOMIC"},
+		"a lookup-then-update of a guarded registry map stays inside one critical section; no store into shared cached state is reachable from a read-only cache callback without a mutex of the stored-to object held; every access to the guarded maps and pointers holds the guarding lock; the lock-class order graph has no cycle outside the reasoned exceptions; every lock acquired is released on every exit",
 		"that a search's results come from one committed version (snapshot / cache version skew); final-state equality with a sequential model", 120},
-	{"C10", []string{"PAIR", "KEYS", "FLUSH"},
-		"graph node and stored vector are created and removed together for the same id; deleting an item removes every key a write may have created; the id allocator is persisted and its ids are paired with the points stored and deleted",
+	{"C10", []string{"PAIR", "KEYS", "FLUSH", "DEGREE", "ITEMFLAGS", "DOCFLOW"},
+		"every site that adds a graph edge is bounded by the degree bound (result check or a dominating guard with enough slack); a cached item deleted and re-put in one transaction stays live; graph node and stored vector are created and removed together for the same id; deleting an item removes every key a write may have created; the id allocator is persisted and its ids are paired with the points stored and deleted",
 		"dangling edges, self-loops, the degree bound and id bounds after arbitrary histories", 12},
-	{"C11", []string{"LOCKPAIR", "LOCKORDER", "SCRAP", "GUARD", "TXSTATE"},
-		"every lock of the cache manager is released on every exit, the write lock handed to the transaction is registered on the same path and unlocked by Commit for every registered cache; lock classes are acquired in an acyclic order; a failed callback or commit scraps and unregisters the cache; readers never block on an existing cache",
+	{"C11", []string{"LOCKPAIR", "LOCKORDER", "SCRAP", "GUARD", "TXSTATE", "ATOMIC"},
+		"the cache registry is looked up and published in one critical section; marking a failed cache scrapped is unconditional before its lock is released; the cache transaction is committed only after the storage transaction returned, with a flag that tests its error; every lock of the cache manager is released on every exit, the write lock handed to the transaction is registered on the same path and unlocked by Commit for every registered cache; lock classes are acquired in an acyclic order; a failed callback or commit scraps and unregisters the cache; readers never block on an existing cache",
 		"that readers observe a quiescent cache (ROEFFECT under C09); fairness", 60},
-	{"C12", []string{"LOCKORDER", "GUARD", "LIFECYCLE", "LOCKPAIR"},
+	{"C12", []string{"LOCKORDER", "GUARD", "LIFECYCLE", "LOCKPAIR", "ATOMIC"},
 		"the shard manager's locks are acquired in an acyclic order and released on every exit; the shard pointer and the shard map are only touched under their locks; the pointer is nil-checked under the lock before use, cleared after Close, and shard files are removed only under the store lock after un-registration; signals to the idle routine never block",
 		"liveness beyond mutex deadlock (channel waits other than the checked non-blocking sends)", 25},
 	{"C13", []string{"PURITY", "ROUTE"},
 		"a server's score depends on (key, that server) only; the ranking comparator depends on its operands only; every RPC destination is RendezvousHash over the node's full, immutable server list",
 		"64-bit score ties; statistical uniformity of the hash", 25},
 	{"C14", []string{"TRANSFER"},
-		"the source copy (file or records) is removed only on paths behind a successful transfer, matching byte/record counts and equal checksums; the receiver reports the checksum of the file on disk and resets the destination on the first chunk; start-up runs RPC serving, synchronisation, HTTP in that order",
+		"recursive removal on the sender is confined to the sent shard's own directory; the record receiver counts an entry as delivered only after its Put succeeded; the source copy (file or records) is removed only on paths behind a successful transfer, matching byte/record counts and equal checksums; the receiver reports the checksum of the file on disk and resets the destination on the first chunk; start-up runs RPC serving, synchronisation, HTTP in that order",
 		"byte identity of transferred files; recovery after a kill at every chunk", 6},
 	{"C15", []string{"QUOTA"},
 		"every side effect of an insert request (shard creation, per-shard insert) is only reachable behind the point-quota test, and the collection record is only written behind the collection-quota test",
@@ -50,17 +50,17 @@ var All = []Prop{
 	{"C16", []string{"TENANT"},
 		"every key and scan prefix on the collection records is user id + delimiter (+ collection id) of the request; shard directories are built from the collection's user id and id; handlers take the user id only from the authenticated headers",
 		"isolation as observed over HTTP for interleaved histories", 18},
-	{"C17", []string{"ROUTE", "FANOUT"},
-		"every RPC handler forwards to itself on the destination server with its own arguments, guarded by the destination test, and acts locally only on the destination; fan-outs cover the collection's complete shard list; \"not found\" is only reported when every shard answered; merged search results are cut to the client's limit",
+	{"C17", []string{"ROUTE", "FANOUT", "SORTED"},
+		"the failed-point bookkeeping binary-searches only a slice that was sorted as a whole; every RPC handler forwards to itself on the destination server with its own arguments, guarded by the destination test, and acts locally only on the destination; fan-outs cover the collection's complete shard list; \"not found\" is only reported when every shard answered; merged search results are cut to the client's limit",
 		"exactly-once effects, merge order and failed-point bookkeeping values", 30},
-	{"C18", []string{"VALID", "LIMITS", "ENUM", "TYPETAB", "TAGGED"},
-		"request bodies are only read through DecodeValid, which only succeeds after Validate; no failing validation edge can reach a cluster call; every documented limit is enforced by the hand-written validators; index-type and quantizer dispatchers are exhaustive; the types validation normalises to are the types the index dispatcher asserts; optional union payloads are only dereferenced behind a nil or tag test",
+	{"C18", []string{"VALID", "LIMITS", "ENUM", "TYPETAB", "TAGGED", "VECLEN", "HANDBUILT"},
+		"for every vector index type both schema validators compare the vector length with the index dimension on every success path; queries built by hand in a handler satisfy the validator of their own type; request bodies are only read through DecodeValid, which only succeeds after Validate; no failing validation edge can reach a cluster call; every documented limit is enforced by the hand-written validators; index-type and quantizer dispatchers are exhaustive; the types validation normalises to are the types the index dispatcher asserts; optional union payloads are only dereferenced behind a nil or tag test",
 		"absence of panics in general for all request bytes; panics on goroutines outside the recovery middleware", 150},
 	{"C19", []string{"SORTABLE", "LAYOUT", "KEYS"},
 		"the sortable codec is order-preserving and invertible on every sign class of int64 and float64 and the identity on strings and uint64; every key constructor and its decoder agree on length, constant bytes, id offset and byte order; item kinds sharing a bucket have disjoint key shapes",
 		"bit-exact round trip of float32 vector payloads beyond byte order and width", 25},
-	{"C20", []string{"ASM", "BITPACK"},
-		"both AVX kernels read every index below the length exactly once from both operands, never beyond it, and fold every accumulator into the result; bit packing uses one word width for count, index and shift on a zeroed slice; the bit metrics combine their operands only with commutative operators",
+	{"C20", []string{"ASM", "BITPACK", "COVERAGE"},
+		"the Go kernels (bit metrics, pure-Go float kernels) read every index below the length from both operands, including unrolled loops with a switch tail; in both AVX kernels a register read as a partial sum is zero or a partial sum on every path and the element count is zero at every return; both AVX kernels read every index below the length exactly once from both operands, never beyond it, and fold every accumulator into the result; bit packing uses one word width for count, index and shift on a zeroed slice; the bit metrics combine their operands only with commutative operators",
 		"floating-point agreement with the scalar reference; haversine; cosine's normalisation assumption", 9},
 }
 
@@ -98,4 +98,55 @@ var Technique = map[string]string{
 	"C18": "who-may-read of the request body, dominance of validation over cluster calls, binding-tag vs Validate comparison tables, enum/type tables, tagged-union dereference guards",
 	"C19": "sign-class abstract interpretation of encoder and decoder, constructor/decoder layout tables (length, constant bytes, offsets, endianness), key-shape disjointness",
 	"C20": "affine abstract interpretation of the Plan-9 AVX kernels (stride, coverage, bounds, accumulator folding), constant agreement of bit packing, operator commutativity",
+}
+
+// RuleFloor: per rule family, the number of obligations below which the rule is
+// considered to have lost its anchors (it would pass vacuously), and the
+// properties that then fail. Counts confirmed on the reference tree; large
+// families get slack for legitimate shrinkage.
+type RuleFloor struct {
+	Min   int
+	Props []string
+}
+
+var RuleFloors = map[string]RuleFloor{
+	"ASM":       {8, []string{"C20"}},
+	"ATOMIC":    {3, []string{"C09", "C11", "C12"}},
+	"BITPACK":   {3, []string{"C20"}},
+	"DEGREE":    {3, []string{"C10"}},
+	"DIRTY":     {5, []string{"C08"}},
+	"DOCFLOW":   {9, []string{"C01", "C02"}},
+	"ENUM":      {14, []string{"C18", "C02", "C04"}},
+	"ERRS":      {100, []string{"C07"}},
+	"FANOUT":    {7, []string{"C17"}},
+	"FLUSH":     {24, []string{"C08", "C07", "C01", "C10"}},
+	"FOLD":      {8, []string{"C02"}},
+	"GUARD":     {38, []string{"C09", "C11", "C12", "C08"}},
+	"HANDBUILT": {2, []string{"C18"}},
+	"ITEMFLAGS": {6, []string{"C10", "C08", "C01"}},
+	"JOIN":      {44, []string{"C07", "C09"}},
+	"KEYS":      {30, []string{"C04", "C08", "C10", "C01", "C19"}},
+	"LAYOUT":    {9, []string{"C19"}},
+	"LIFECYCLE": {7, []string{"C12"}},
+	"LIMITS":    {90, []string{"C18"}},
+	"LOCKORDER": {25, []string{"C09", "C11", "C12"}},
+	"LOCKPAIR":  {32, []string{"C09", "C11", "C12", "C07"}},
+	"OPTABLE":   {8, []string{"C02"}},
+	"PAIR":      {5, []string{"C10", "C01"}},
+	"PURITY":    {3, []string{"C13"}},
+	"QUOTA":     {3, []string{"C15"}},
+	"ROEFFECT":  {5, []string{"C09"}},
+	"ROUTE":     {35, []string{"C13", "C17"}},
+	"SCAN":      {4, []string{"C02", "C08"}},
+	"SCRAP":     {13, []string{"C11", "C07", "C09"}},
+	"SORTABLE":  {14, []string{"C19", "C02"}},
+	"SORTED":    {1, []string{"C17"}},
+	"TAGGED":    {36, []string{"C18"}},
+	"TENANT":    {22, []string{"C16"}},
+	"TRANSFER":  {8, []string{"C14"}},
+	"TXSTATE":   {12, []string{"C07", "C11"}},
+	"TYPETAB":   {9, []string{"C18"}},
+	"VALID":     {12, []string{"C18"}},
+	"VECLEN":    {4, []string{"C18"}},
+	"COVERAGE":  {4, []string{"C20"}},
 }
